@@ -20,3 +20,27 @@ Definition x_display_col (s : string) (col : Z) : Z := display_col s col max_lin
 Definition x_window (lines : option (list string)) (n : Z) : list (Z * string) := window lines n ctx_before ctx_after.
 Definition x_rep_format (content : option string) (line col : Z) (code msg : string) : outcome :=
   format_message max_line_length ctx_before ctx_after x_doc_url content line col code msg.
+
+(* --- configuration (C18, C14, C08) --- *)
+From GG Require Import Model.Config.
+Definition assoc_bool (k : string) (l : list (string * bool)) : bool :=
+  match find (fun p => String.eqb k (fst p)) l with Some p => snd p | None => false end.
+Definition x_cfg_params : cfg_params :=
+  let fl n := fst (nth n cfg_flags ("", "")) in
+  {| env_scan := hd "" cfg_env_bool;
+     env_paths := fst (nth 0 cfg_env_list ("", false));
+     env_checks := fst (nth 1 cfg_env_list ("", false));
+     env_only := hd "" cfg_env_only;
+     up_env_paths := snd (nth 0 cfg_env_list ("", false));
+     up_env_checks := snd (nth 1 cfg_env_list ("", false));
+     flag_scan := fl 0%nat; flag_paths := fl 1%nat; flag_checks := fl 2%nat;
+     up_flag_paths := assoc_bool (fl 1%nat) cfg_flag_upper;
+     up_flag_checks := assoc_bool (fl 2%nat) cfg_flag_upper;
+     def_scan := cfg_default_scan_tests;
+     def_paths := cfg_default_exclude_paths;
+     def_checks := cfg_default_exclude_checks;
+     bool_extra := cfg_bool_extra |}.
+Definition x_cfg_resolve : flags -> env -> cfg_result := resolve x_cfg_params.
+Definition x_cfg_from_env : env -> config := from_env x_cfg_params.
+Definition x_parse_bool : string -> bool := parse_bool cfg_bool_extra.
+Definition x_should_skip : config -> string -> bool := should_skip.
